@@ -98,11 +98,11 @@ PROPS = {
         jobs=[
             J("rsec16", "C12_params", bound="every total length 0..2^62, every goroutine count 1..2^31, symbolic worker index; min 16, divisor 16"),
             J("rsec16", "C12_params_out", bound="same with min 1, divisor 1 (applyMatrixParallelOut)"),
-            J("rsec16", "C12_partition_symbolic", bound="the real applyMatrixParallelData and worker closures on buffers of symbolic even length 2..2^61 (no contents), 1..4 requested goroutines: worker ranges consecutive, non-empty, covering; WaitGroup count = workers"),
-            J("rsec16", "C12_coder_goroutines", bound="Cauchy coder 2+2, shard lengths 2,16,30,32,34,48,62,64,66 with symbolic contents, 2..5 goroutines against the single-goroutine coder: GenerateParity and ReconstructData of both data shards"),
-            J("rsec16", "C12_parallel_data", bound="shard length 2..24 bytes, goroutines 1..4, 2x2 symbolic matrix, symbolic data, forward and reverse task order"),
-            J("rsec16", "C12_parallel_data_long", bound="shard length 26..64 bytes, goroutines 1..6 (2..4 workers, clamped last chunk)"),
-            J("rsec16", "C12_parallel_out", bound="shard length 2..6 bytes, goroutines 1..3"),
+            J("rsec16", "C12_partition_symbolic", race=True, bound="the real applyMatrixParallelData and worker closures on buffers of symbolic even length 2..2^61 (no contents), 1..4 requested goroutines: worker ranges consecutive, non-empty, covering; WaitGroup count = workers"),
+            J("rsec16", "C12_coder_goroutines", race=True, bound="Cauchy coder 2+2, shard lengths 2,16,30,32,34,48,62,64,66 with symbolic contents, 2..5 goroutines against the single-goroutine coder: GenerateParity and ReconstructData of both data shards"),
+            J("rsec16", "C12_parallel_data", race=True, bound="shard length 2..24 bytes, goroutines 1..4, 2x2 symbolic matrix, symbolic data, forward and reverse task order"),
+            J("rsec16", "C12_parallel_data_long", race=True, bound="shard length 26..64 bytes, goroutines 1..6 (2..4 workers, clamped last chunk)"),
+            J("rsec16", "C12_parallel_out", race=True, bound="shard length 2..6 bytes, goroutines 1..3"),
             J("rsec16", "C12_params", tier="thorough", tag="@z3-new", args=["-solver", "z3-new"], bound="same harness decided by z3 5.1.0 (cross-solver check)"),
         ],
     ),
@@ -114,6 +114,7 @@ PROPS = {
             J("par1", "C04_roundtrip", bound="1..3 files of 0..3 symbolic bytes (incl. an empty file next to non-empty ones), 1..2 volumes, every subset of data files deleted / overwritten, every subset of volumes deleted, double-check on/off", must_reach=["clean", "repairable", "unrepairable"]),
             J("par1", "C04_roundtrip_unicode", bound="a non-ASCII name and a name needing a UTF-16 surrogate pair, sizes 2 and 0, 2 volumes, every damage subset"),
             J("par1", "C04_sixteenk", bound="one file of exactly 16384 / 16385 concrete bytes (the 16k-hash boundary), 1 volume, every damage of the C04 scenario incl. appended byte"),
+            J("par1", "C04_max_volumes", bound="one 2-byte file with the maximum of 99 volumes: all found; any one of volumes 1, 50, 98, 99 alone repairs the lost file"),
         ],
     ),
     "C10": dict(
@@ -145,6 +146,7 @@ PROPS = {
             J("par2", "C05_create_two", bound="2 files (3,4),(4,5),(8,1) symbolic bytes, 1..2 blocks; both id orders"),
             J("par2", "C05_create_three", bound="3 files 5,4,3 bytes, 1/4/5 blocks (3 volume files), goroutines 1..2; all 6 id orders"),
             J("par2", "C05_create_names", bound="2..3 files whose names have different lengths (not multiples of 4, sub-directories), symbolic contents of 1..3 bytes (both id orders), 1 block"),
+            J("par2", "C05_index_names", bound="index base names s, data, x2, a., par, set.v1, arp2.par2; 1 file of 3 symbolic bytes, 3 blocks: paths written, neighbouring file untouched, Verify finds every block"),
             J("par2", "C05_sixteenk", bound="file lengths 16383, 16384, 16385"),
             J("par2", "C05_volume_layout", bound="1..40 recovery blocks"),
         ],
@@ -154,7 +156,7 @@ PROPS = {
         assumptions=["Unix path semantics (GOOS=linux); symlinks are outside the claim", "alphabet { . / \\ a NUL 0x80 } stands for the byte classes the code distinguishes"],
         jobs=[
             J("par2", "C15_checkFilename", bound="declared names of 0..4 symbolic bytes", must_reach=["accepted", "rejected"]),
-            J("par2", "C15_checkFilename_long", tier="thorough", bound="declared names of 0..6 symbolic bytes"),
+            J("par2", "C15_checkFilename_long", bound="declared names of 0..6 symbolic bytes"),
             J("par2", "C15_getFilePath", bound="names of 0..3 bytes, relative index path"),
             J("par2", "C15_newEncoder", bound="input paths '/'+0..4 symbolic bytes against base /a", must_reach=["accepted"]),
             J("par1", "C15_par1_names", bound="PAR1: declared names of 1..4 symbolic bytes over { . / \\ a }, file missing, one volume", must_reach=["written"]),
@@ -188,6 +190,7 @@ PROPS = {
         explanation="write log of the symbolic file system during Repair / Verify / Create compared with the originals",
         assumptions=["MD5 injective model; symFS below fileIO", "PAR1: reedsolomon contract stub as in C04"],
         jobs=[
+            J("par2", "C05_index_names", bound="index base names s, data, x2, a., par, set.v1, arp2.par2; 1 file of 3 symbolic bytes, 3 blocks: paths written, neighbouring file untouched, Verify finds every block"),
             J("par2", "C02_default_io", bound="the real defaultFileIO.WriteFile / ReadFile (ioutil -> os.WriteFile real SSA -> modelled OpenFile/Write/Close with POSIX flag semantics) on a path that is missing or holds 0..4 symbolic bytes, new contents 0..3 symbolic bytes, one bystander file"),
             J("par1", "C02_par1_default_io", bound="same, PAR1's defaultFileIO"),
             J("par1", "C02_par1_garbage_parity", must_reach=["written", "rejected"], bound="PAR1 set of one file of 3 / 16386 bytes, the volume's last parity byte xor a symbolic value with the control hash recomputed, data file missing, double-check on/off"),
@@ -245,6 +248,7 @@ PROPS = {
             J("par2", "C18_create_faults", bound="2 input files, 3 blocks (index + 2 volumes): fault at each of 2 reads / 3 writes, torn prefix of 0, 64, 100 bytes or none"),
             J("par2", "C18_verify_faults", bound="2 files, 2 blocks, intact or one file missing: fault at each read, or at the directory listing"),
             J("par2", "C18_repair_faults", bound="2 files both needing repair, 3 blocks: fault at each read, the listing, or each write (torn 0 / 2 bytes / untouched)"),
+            J("par2", "C18_index_only_faults", bound="intact 5-byte file, every recovery file removed: Verify / Repair (double-check on/off) with a fault at each read and each directory listing the code makes in that state"),
             J("par1", "C18_par1_create_faults", bound="PAR1 Create (2 files, 2 volumes): fault at each of 2 reads / 3 writes (torn or not); PAR1 Verify: fault at each read"),
             J("par1", "C18_par1_faults", bound="PAR1 Repair: fault at each read or at the write (torn 0 / 1 byte / untouched)"),
         ],
@@ -339,7 +343,27 @@ def replay_c20(cex, scratch, repo, goenv):
                 open(os.path.join(d, "data1"), "wb").write(b"hello")
                 want = (0,)
             else:
-                want = "nonzero-not-3"  # data1 does not exist: Create fails
+                # Create fails: realised three ways (missing input -> wrapped OS error; invalid
+                # slice size and an input outside the index directory -> plain library errors)
+                variants = [argv]
+                if fname.endswith(".par2"):
+                    open(os.path.join(d, "data1"), "wb").write(b"hello")
+                    variants.append(argv[:argv.index(cmd) + 1] + ["-s", "6"] + argv[argv.index(cmd) + 1:])
+                    os.makedirs(os.path.join(d, "inner"), exist_ok=True)
+                    variants.append(argv[:argv.index(cmd) + 1] + ["inner/" + os.path.basename(fname), "data1"])
+                bad = []
+                for i, av in enumerate(variants):
+                    if i == 1:
+                        pass
+                    if i == 0 and len(variants) > 1:
+                        os.remove(os.path.join(d, "data1"))
+                        code = run(av)
+                        open(os.path.join(d, "data1"), "wb").write(b"hello")
+                    else:
+                        code = run(av)
+                    if code in (0, 3):
+                        bad.append("par %s -> exit %d" % (" ".join(av), code))
+                return dict(fails=[cex["label"] + " [binary: " + "; ".join(bad) + "]"] if bad else [], exit_code=-1, state="create-fails")
         else:
             for n, c in (("a", b"hello"), ("b", b"xyz")):
                 open(os.path.join(d, sub + n), "wb").write(c)
